@@ -56,7 +56,8 @@ impl StorageImpl {
     /// Returns true if the storage engine supports range filter scan.
     pub fn support_range_filter_scan(&self) -> bool {
         match self {
-            Self::SecondaryStorage(_) => true,
+            // the range scan seeks with the first keys recorded in the block index
+            Self::SecondaryStorage(s) => s.records_first_key(),
             Self::InMemoryStorage(_) => false,
         }
     }
